@@ -27,7 +27,7 @@ use akd_core::verify::history::HistoryParams;
 use std::collections::{HashMap, HashSet};
 use std::marker::PhantomData;
 use std::sync::Arc;
-use tokio::sync::RwLock;
+use tokio::sync::{Mutex, RwLock};
 #[cfg(feature = "tracing_instrument")]
 use tracing::Instrument;
 
@@ -43,6 +43,10 @@ pub struct Directory<TC, S: Database, V> {
     /// (in this case we do utilize the write() lock which can only occur 1
     /// at a time and gates further read() locks being acquired during write()).
     cache_lock: Arc<RwLock<()>>,
+    /// Publish calls on this directory and its clones are serialized by this lock: a publish
+    /// reads the current epoch and user versions, builds the next epoch in the (shared) in-memory
+    /// transaction and commits it, which is only correct if no other publish runs in between.
+    publish_lock: Arc<Mutex<()>>,
     tc: PhantomData<TC>,
 }
 
@@ -54,6 +58,7 @@ impl<TC, S: Database, V: VRFKeyStorage> Clone for Directory<TC, S, V> {
             vrf: self.vrf.clone(),
             parallelism_config: self.parallelism_config,
             cache_lock: self.cache_lock.clone(),
+            publish_lock: self.publish_lock.clone(),
             tc: PhantomData,
         }
     }
@@ -92,6 +97,7 @@ where
             vrf,
             parallelism_config,
             cache_lock: Arc::new(RwLock::new(())),
+            publish_lock: Arc::new(Mutex::new(())),
             tc: PhantomData,
         })
     }
@@ -102,6 +108,9 @@ where
     /// condition is explicitly checked, and an error will be returned if this is the case.
     #[cfg_attr(feature = "tracing_instrument", tracing::instrument(skip_all, fields(num_updates = updates.len())))]
     pub async fn publish(&self, updates: Vec<(AkdLabel, AkdValue)>) -> Result<EpochHash, AkdError> {
+        // Only one publish at a time (see the comment on the field)
+        let _publish_guard = self.publish_lock.lock().await;
+
         // The guard will be dropped at the end of the publish operation
         let _guard = self.cache_lock.read().await;
 
@@ -895,6 +904,7 @@ where
             vrf,
             parallelism_config,
             cache_lock: Arc::new(RwLock::new(())),
+            publish_lock: Arc::new(Mutex::new(())),
             tc: PhantomData,
         }))
     }
